@@ -1538,7 +1538,7 @@ class ZMatrix(TwoPortMatrix):
 
     @classmethod
     def Lsection(cls, Z1, Z2):
-        return cls.Tsection(Z1 + Z2, Z2, Z2, Z2)
+        return cls.Tsection(Z1, Z2, 0)
 
     @classmethod
     def Tsection(cls, Z1, Z2, Z3):
@@ -3597,7 +3597,7 @@ class BridgedTSection(TwoPortThing):
 
         _check_oneport_args((OP1, OP2, OP3, OP4))
         self.tp = TSection(OP1, OP2, OP3).parallel(Series(OP4))
-        super(TwinTSection, self).__init__(self.tp)
+        super(BridgedTSection, self).__init__(self.tp)
         self.args = (OP1, OP2, OP3, OP4)
 
 
@@ -3675,8 +3675,8 @@ class LSectionAlt(TwoPortThing):
     def __init__(self, OP1, OP2):
 
         _check_oneport_args((OP1, OP2))
-        self.tp = Series(OP1).chain(Shunt(OP2))
-        super(LSection, self).__init__(self.tp)
+        self.tp = Shunt(OP1).chain(Series(OP2))
+        super(LSectionAlt, self).__init__(self.tp)
         self.args = (OP1, OP2)
 
 
